@@ -51,7 +51,25 @@ from edb.schema import objects as s_obj
 if TYPE_CHECKING:
     from edb.edgeql import qltypes
 
-MISSING: Any = object()
+class _Missing:
+    """Sentinel for "no default"; a singleton that survives pickling and
+    copying, because type specs travel between server processes."""
+
+    _instance: Optional[_Missing] = None
+
+    def __new__(cls) -> _Missing:
+        if cls._instance is None:
+            cls._instance = super().__new__(cls)
+        return cls._instance
+
+    def __reduce__(self) -> tuple[Any, ...]:
+        return (_Missing, ())
+
+    def __repr__(self) -> str:
+        return 'MISSING'
+
+
+MISSING: Any = _Missing()
 
 
 @dataclasses.dataclass(frozen=True)
